@@ -25,6 +25,8 @@ Pairs (base = all features on, interface logging, payload int, limit 4):
    serial0         nothing to drop                                    (skip: saveload)
    dev1            nothing to drop: identical transcripts, only the file names in `assert` lines differ
  thorough tier adds
+   payload0        identical; both builds run with $VH_NOPAYLOADUSE (payload type configured but never used ≡ void)
+ thorough tier adds
    payload2/3      identical (the scripted payload value is carried by every payload type)
    util0           shapes without utility strategies, skip: utility   (no utilize/randomize requests)
    limit8          compared per scenario, scenarios in which the base run hit SUBSTITUTION_LIMIT are exempt
@@ -95,13 +97,13 @@ def has_utility(shape):
 
 
 # variant name -> (config overrides, base overrides, $VH_SKIP, projection name, needs shape without utility)
-VARIANTS_QUICK = ['log0', 'log2', 'struct0', 'history0', 'dev1', 'plans0', 'plans0_bottomup1']
+VARIANTS_QUICK = ['log0', 'log2', 'struct0', 'history0', 'dev1', 'plans0', 'plans0_bottomup1', 'payload0']
 VARIANTS_THOROUGH = VARIANTS_QUICK + ['serial0', 'payload2', 'payload3', 'util0', 'limit8', 'log0_dev1', 'struct0_history0_serial0',
                                      'plans0_manual1', 'plans0_log2', 'serial0_bottomup1', 'history0_bottomup1_manual1']
 
 
 def variant(name):
-    v = dict(cfg={}, base={}, skip='', proj=set(), noutil=False, per_scenario_exempt=None, env={})
+    v = dict(cfg={}, base={}, skip='', proj=set(), noutil=False, per_scenario_exempt=None, env={}, scale=1)
     for part in name.split('_'):
         if part == 'log0':
             v['cfg']['log'] = 0; v['proj'].add('log')
@@ -117,6 +119,12 @@ def variant(name):
             v['cfg']['serial'] = 0; v['skip'] += ',saveload'
         elif part == 'dev1':
             v['cfg']['dev'] = 1; v['proj'].add('assertloc')
+        elif part == 'payload0':
+            # both builds run with $VH_NOPAYLOADUSE: no request or task carries a payload, so the build with a payload type
+            # (the `TTP_` specialisations of FullControlT / PlanT / TransitionT) must behave like the `void` build
+            # (assertions fire in the other copy of the duplicated code: compare that they fire, not the line)
+            v['cfg']['payload'] = 0; v['env']['VH_NOPAYLOADUSE'] = '1'; v['proj'].add('assertloc')
+            v['scale'] = 6        # the duplicated code is plan code: more scenarios, so that plans with several tasks per origin occur
         elif part in ('payload2', 'payload3'):
             v['cfg']['payload'] = int(part[-1])
         elif part == 'util0':
@@ -207,6 +215,7 @@ def _run(job):
     tag, exe, seed, scen, ops, skip, out = job[:7]
     env = dict(os.environ)
     env.pop('VH_NOPLANUSE', None)
+    env.pop('VH_NOPAYLOADUSE', None)
     env.update(job[7] if len(job) > 7 else {})
     env['VH_SKIP'] = skip or 'none'
     p = V.run_limited([exe, str(seed), str(scen), str(ops)], out, timeout=900, env=env)
@@ -259,7 +268,7 @@ def run(tier, seed):
                         builds[btag] = (btag, E.emit(sh, cfg), flags, bool(cfg.get('dev')))
                     rtag = '%s__%s%s' % (btag, v['skip'] or 'none', ''.join('_' + k for k in sorted(v['env'])))
                     tags.append(rtag)
-                    runs.append((rtag, btag, v['skip'], v['env']))
+                    runs.append((rtag, btag, v['skip'], v['env'], v['scale']))
                 pairs.append((si, name, tags[0], tags[1], cfg_b, cfg_v, v))
         with cf.ThreadPoolExecutor(max_workers=V.JOBS) as ex:
             built = {tag: (exe, err) for tag, exe, err, dt, cached in ex.map(_build, list(builds.values()))}
@@ -269,9 +278,9 @@ def run(tier, seed):
                 res['rejections'].append(dict(tag='compile', what='configuration %s does not compile against the current header: %s'
                                               % (tag, err[-500:]), replay='build tag %s\n%s' % (tag, err[-1500:])))
         todo = {}
-        for rtag, btag, skip, renv in runs:
+        for rtag, btag, skip, renv, scale in runs:
             if rtag not in todo and built.get(btag, (None,))[0]:
-                todo[rtag] = (rtag, built[btag][0], seed, scen, ops, skip, os.path.join(trdir, rtag + '.txt'), renv)
+                todo[rtag] = (rtag, built[btag][0], seed, scen * scale, ops, skip, os.path.join(trdir, rtag + '.txt'), renv)
         with cf.ThreadPoolExecutor(max_workers=V.JOBS) as ex:
             done = {tag: (st, err) for tag, st, err in ex.map(_run, list(todo.values()))}
         compared = scenarios_compared = exempt = lines_compared = 0
